@@ -16,11 +16,12 @@ RULE = ("all trees of depth <= d over the leaves of a variable layout, deduplica
         "identically zero on the evaluation lattice")
 ASSUMPTIONS = ["sympy differentiation + float64 evaluation is the oracle; rtol 1e-4 (float32) / 1e-9 (float64)",
                "smooth programs only (no relu/abs); evaluation on a fixed lattice of 4 rows per batch"]
-BOUNDS = {"quick": {"depth": {"x1": 2, "x1t": 2, "x2": 1, "x2t": 1, "x3": 1}, "chunk": 60},
-          "thorough": {"depth": {"x1": 2, "x1t": 2, "x2": 2, "x2t": 2, "x3": 2}, "chunk": 60}}
+BOUNDS = {"quick": {"depth": {"x1": 2, "x1t": 2, "x2": 1, "x2t": 1, "x3": 1, "xyz": 1, "x2tp": 1}, "chunk": 60},
+          "thorough": {"depth": {"x1": 2, "x1t": 2, "x2": 2, "x2t": 2, "x3": 2, "xyz": 2, "x2tp": 1}, "chunk": 60}}
 ITEM_LIMIT = {"quick": 900, "thorough": 3600}
 
-LAYOUTS = {"x1": [("x", 1)], "x1t": [("x", 1), ("t", 1)], "x2": [("x", 2)], "x2t": [("x", 2), ("t", 1)], "x3": [("x", 3)]}
+LAYOUTS = {"x1": [("x", 1)], "x1t": [("x", 1), ("t", 1)], "x2": [("x", 2)], "x2t": [("x", 2), ("t", 1)], "x3": [("x", 3)],
+           "xyz": [("x", 1), ("y", 1), ("z", 1)], "x2tp": [("x", 2), ("t", 1), ("p", 1)]}     # three and more derivative variables
 UN = ("sin", "exp", "sq")
 BIN = ("add", "mul")
 
@@ -123,7 +124,7 @@ def items(tier):
         for s in range(0, n, ch):
             out.append({"name": "scalar|%s|%d-%d" % (layout, s, min(n, s + ch)), "kind": "scalar", "layout": layout, "depth": depth,
                         "lo": s, "hi": min(n, s + ch), "tier": tier, "cost": 5})
-    for layout in ("x2", "x2t", "x3", "x1t"):
+    for layout in ("x2", "x2t", "x3", "x1t", "xyz", "x2tp"):
         out.append({"name": "vector|%s" % layout, "kind": "vector", "layout": layout, "tier": tier, "cost": 8})
     return out
 
